@@ -11,6 +11,20 @@ Definition apply_alop (rows : res (list arow)) (o : alop) : res (list arow) :=
                    | ARc => row_rc r
                    end) l).
 
+(** correspondence only: [aln.deepcopy(sliced)] / [aln.copy()] as further history steps.
+    [Aligned.deepcopy(sliced=True)]: same map, [data.copy(sliced=True)] (C01's CopySliced);
+    unsliced copies leave map and view as they are *)
+Inductive alhop := AOp (o : alop) | ACopy (sliced : bool).
+
+Definition apply_alhop (rows : res (list arow)) (h : alhop) : res (list arow) :=
+  match h with
+  | AOp o => apply_alop rows o
+  | ACopy false => rows
+  | ACopy true =>
+      bind rows (fun l =>
+        mapM (fun r => bind (of_view (View.apply_op Fixed (adata r) CopySliced)) (fun d => Ok (mkRow (amap r) d))) l)
+  end.
+
 Definition vres2 {A} (f : A -> val) (r : res A) : val :=
   match r with Ok a => f a | Err e => VE e end.
 
@@ -34,13 +48,13 @@ Definition obs_aln_feature (fx : Annot.fixes) (rows : list arow) (x : Z * list (
   end.
 
 Definition alcase : Type :=
-  ((bool * bool * bool) * list (list Z) * list (Z * list (Z * Z) * bool) * list alop)%type.
+  ((bool * bool * bool) * list (list Z) * list (Z * list (Z * Z) * bool) * list alhop)%type.
 
 Definition run_alcase (c : alcase) : val :=
   let '(fxs, strs, feats, ops) := c in
   let '(f1, f2, f3) := fxs in
   let fx := mkFx f1 f2 f3 in
-  match fold_left apply_alop ops (mapM (row_of_string KDna) strs) with
+  match fold_left apply_alhop ops (mapM (row_of_string KDna) strs) with
   | Err e => VE e
   | Ok rows => VL (map (obs_aln_feature fx rows) feats)
   end.
